@@ -1,5 +1,5 @@
 (* C13/Source2.v — tie of the hand-written model of create_requested_attribute_node (C13/Builders.v: ra_resolve,
-   ra_step1, ra_step2, first_hit) to the source TEXT, translator v2.
+   ra_step1, ra_step2, ra_step3, first_hit) to the source TEXT, translator v2.
 
    coq/gen/C13Src2.v is regenerated on every run by harness/c13.py:regenerate_tables (harness/py2coq2.py) from the
    CURRENT text of /repo/src/saml2/client_base.py.  The theorem says: the translated function, applied to ANY list of
@@ -26,7 +26,9 @@ Definition nocls (d : list (string * string)) : bool := forallb (fun kv => negb 
 Definition enc_conv (c : conv) : pyval :=
   PObj [("__class__", PStr "AttributeConverter"); ("name_format", PStr (cv_format c));
         ("_to", enc_dict (cv_to c)); ("_fro", enc_dict (cv_fro c))].
-Definition conv_ok (c : conv) : bool := nocls (cv_to c) && nocls (cv_fro c).
+(* no key "__class__"; the names a `to` table answers with are lower-cased by the third step: ASCII *)
+Definition vals_ascii (d : list (string * string)) : bool := forallb (fun kv => all_ascii (snd kv)) d.
+Definition conv_ok (c : conv) : bool := nocls (cv_to c) && nocls (cv_fro c) && vals_ascii (cv_to c).
 
 Lemma nocls_is_obj d : nocls d = true -> is_obj (map enc_entry d) = false.
 Proof.
@@ -143,14 +145,15 @@ Section Inner.
   Qed.
 End Inner.
 
-Lemma append_item items req fmt fr nm :
+Lemma append_item items v1 v2 v3 v4 :
+  is_bad v1 = false -> is_bad v2 = false -> is_bad v3 = false -> is_bad v4 = false ->
   p2_append (PList items)
-    (py_bind (PStr req) (fun a_8 => py_bind (enc_o fmt) (fun a_9 => py_bind (enc_o fr) (fun a_10 => py_bind (enc_o nm) (fun a_11 =>
+    (py_bind v1 (fun a_8 => py_bind v2 (fun a_9 => py_bind v3 (fun a_10 => py_bind v4 (fun a_11 =>
        PObj [("__class__", PStr "RequestedAttribute"); ("name", a_11); ("name_format", a_9); ("friendly_name", a_10);
              ("is_required", a_8)])))))
-  = PList (items ++ [PObj [("__class__", PStr "RequestedAttribute"); ("name", enc_o nm); ("name_format", enc_o fmt);
-                           ("friendly_name", enc_o fr); ("is_required", PStr req)]]).
-Proof. destruct fmt, fr, nm; reflexivity. Qed.
+  = PList (items ++ [PObj [("__class__", PStr "RequestedAttribute"); ("name", v4); ("name_format", v2);
+                           ("friendly_name", v3); ("is_required", v1)]]).
+Proof. intros H1 H2 H3 H4. rewrite !py_bind_good by assumption. reflexivity. Qed.
 
 Lemma lower_enc s : all_ascii s = true -> p2_lower (PStr s) = PStr (lower s).
 Proof. intros H. cbn. rewrite H. reflexivity. Qed.
@@ -158,13 +161,98 @@ Proof. intros H. cbn. rewrite H. reflexivity. Qed.
 Lemma convs_ok_to cs : forallb conv_ok cs = true -> forallb (fun c => nocls (cv_to c)) cs = true.
 Proof.
   intros H. rewrite forallb_forall in *. intros c Hc. specialize (H c Hc). unfold conv_ok in H.
-  apply andb_true_iff in H. tauto.
+  apply andb_true_iff in H as [H _]. apply andb_true_iff in H. tauto.
 Qed.
 Lemma convs_ok_fro cs : forallb conv_ok cs = true -> forallb (fun c => nocls (cv_fro c)) cs = true.
 Proof.
   intros H. rewrite forallb_forall in *. intros c Hc. specialize (H c Hc). unfold conv_ok in H.
-  apply andb_true_iff in H. tauto.
+  apply andb_true_iff in H as [H _]. apply andb_true_iff in H. tauto.
 Qed.
+
+Lemma sassoc_ascii k d v : vals_ascii d = true -> sassoc k d = Some v -> all_ascii v = true.
+Proof.
+  induction d as [|[k' v'] r IH]; [discriminate|]. cbn [vals_ascii forallb sassoc snd]. intros H E.
+  apply andb_true_iff in H as [H1 H2]. destruct (String.eqb k k'); [inversion E; subst; exact H1|exact (IH H2 E)].
+Qed.
+
+Lemma to_hit_ascii cs k v cf : forallb conv_ok cs = true -> first_hit cv_to k cs = Some (v, cf) -> all_ascii v = true.
+Proof.
+  induction cs as [|c r IH]; [discriminate|]. cbn [forallb first_hit]. intros H E. apply andb_true_iff in H as [Hc Hr].
+  destruct (sassoc k (cv_to c)) as [v0|] eqn:Es.
+  - inversion E; subst. unfold conv_ok in Hc. apply andb_true_iff in Hc as [_ Hv]. exact (sassoc_ascii _ _ _ Hv Es).
+  - exact (IH Hr E).
+Qed.
+
+(* ---- the third loop: the state is [converter; name_format] *)
+Section Inner3.
+  Variable key : string.
+  Variable vfmt : pyval.
+  Variable body : list pyval -> pyval -> ctl2.
+  Hypothesis body_eq : forall c vc,
+    body [vc; vfmt] (enc_conv c)
+    = match p2_branch (p2_in (PStr key) (p2_or (p2_attr (enc_conv c) "_fro") (PObj []))) with
+      | BTrue => py_bindS (fun n => ExcS n [enc_conv c; vfmt]) (p2_attr (enc_conv c) "name_format")
+                          (fun nf => BrkS [enc_conv c; nf])
+      | BFalse => NextS [enc_conv c; vfmt]
+      | BExc n => ExcS n [enc_conv c; vfmt]
+      | BErr => RetS PErr
+      end.
+
+  Lemma inner3 cs :
+    forallb (fun c => nocls (cv_fro c)) cs = true ->
+    forall vc, exists vc',
+      pyfor2 (map enc_conv cs) [vc; vfmt] body
+      = match first_hit cv_fro key cs with
+        | Some (_, cf) => BrkS [vc'; PStr cf]
+        | None => NextS [vc'; vfmt]
+        end.
+  Proof.
+    induction cs as [|c r IH]; intros Hok vc.
+    - exists vc. reflexivity.
+    - cbn [forallb] in Hok. apply andb_true_iff in Hok as [Hc Hr].
+      cbn [map pyfor2 first_hit]. rewrite body_eq.
+      change (p2_attr (enc_conv c) "_fro") with (enc_dict (cv_fro c)). unfold enc_dict.
+      assert (Hor : p2_or (PObj (map enc_entry (cv_fro c))) (PObj []) = PObj (map enc_entry (cv_fro c))).
+      { rewrite p2_or_good by reflexivity. destruct (cv_fro c); reflexivity. }
+      rewrite Hor. rewrite p2_in_dict by (apply nocls_is_obj; exact Hc). rewrite assoc_enc, p2_branch_bool.
+      destruct (sassoc key (cv_fro c)) as [v|]; cbn [option_map].
+      + exists (enc_conv c). reflexivity.
+      + exact (IH Hr (enc_conv c)).
+  Qed.
+End Inner3.
+
+Lemma branch_not o : p2_branch (p2_not (enc_o o)) = if struthy o then BFalse else BTrue.
+Proof. rewrite p2_not_good by apply enc_o_good. rewrite p2_branch_bool, enc_o_truthy. destruct (struthy o); reflexivity. Qed.
+
+Lemma branch_and_not a b :
+  p2_branch (p2_and (p2_not (enc_o a)) (p2_not (enc_o b))) = if negb (struthy a) && negb (struthy b) then BTrue else BFalse.
+Proof.
+  rewrite !p2_not_good by apply enc_o_good. rewrite !enc_o_truthy. rewrite p2_and_good by reflexivity. cbn [py_truthy].
+  destruct (struthy a), (struthy b); reflexivity.
+Qed.
+
+(* the test of the third step: name and not name_format *)
+Lemma branch_and_name n fo : is_empty n = false ->
+  p2_branch (p2_and (PStr n) (p2_not (enc_o fo))) = if struthy fo then BFalse else BTrue.
+Proof.
+  intros H. rewrite p2_not_good by apply enc_o_good. rewrite enc_o_truthy. rewrite p2_and_good by reflexivity.
+  cbn [py_truthy]. rewrite H. cbn [negb]. rewrite p2_branch_bool. destruct (struthy fo); reflexivity.
+Qed.
+
+Lemma branch_and_noname vn fo : struthy vn = false -> p2_branch (p2_and (enc_o vn) (p2_not (enc_o fo))) = BFalse.
+Proof.
+  intros H. rewrite p2_and_good by apply enc_o_good. rewrite enc_o_truthy, H.
+  destruct vn as [x|]; [|reflexivity]. cbn [struthy] in H. cbn. destruct (is_empty x); [reflexivity|discriminate].
+Qed.
+
+Ltac loop3 n cs Hcs :=
+  rewrite ?(py_bindS_good _ (PList (map enc_conv cs))) by reflexivity; rewrite ?py_iter2_list;
+  match goal with |- context [pyfor2 (map enc_conv cs) [?vc; ?vf] ?b] =>
+    let vc3 := fresh "vc3" in let Hl3 := fresh "Hl3" in
+    destruct (inner3 (lower n) vf b (fun c vc0 => eq_refl) cs (convs_ok_fro cs Hcs) vc) as [vc3 Hl3]; rewrite Hl3; clear Hl3
+  end.
+Ltac finish := rewrite append_item by (apply enc_o_good || reflexivity); rewrite py_bindS_good by reflexivity;
+  do 5 eexists; cbn [fst snd]; reflexivity.
 
 Definition outcome (r : ctl2) (items : list pyval) (res : option (list reqattr)) : Prop :=
   match res with
@@ -188,45 +276,62 @@ Proof.
     rewrite (is_required_enc f r Hf Kr Har).
     do 3 (rewrite py_bindS_good by apply enc_o_good). rewrite py_bindS_good by reflexivity.
     rewrite p2_iter_check_list. rewrite (py_bindS_good _ (PList (map enc_conv cs))) by reflexivity. rewrite py_iter2_list.
-    rewrite !p2_not_good by apply enc_o_good. rewrite !enc_o_truthy. rewrite p2_and_good by reflexivity.
-    cbn [py_truthy].
-    destruct (struthy (rq_name r)) eqn:En; destruct (struthy (rq_friendly r)) eqn:Ef; cbn [negb p2_branch py_truthy].
-    - (* name and friendly name given: nothing is looked up *)
-      rewrite append_item. rewrite py_bindS_good by reflexivity.
-      unfold outcome, ra_resolve. rewrite En, Ef. cbn [negb andb option_map map].
-      do 5 eexists. unfold enc_item, name_of, friendly_of, format_of, ra_step2, ra_step1.
-      cbn [ra_name ra_format ra_friendly ra_to_hit ra_fro_hit ra_required fst snd]. rewrite En, Ef. cbn [fst snd]. reflexivity.
-    - (* name given, friendly name missing: the second loop *)
+    rewrite !branch_and_not, !branch_not.
+    destruct (struthy (rq_name r)) eqn:En; destruct (struthy (rq_friendly r)) eqn:Ef; cbn [negb andb].
+    - (* name and friendly name given: no loop runs, the third step may *)
       destruct (struthy_some _ En) as [n Hn]. rewrite Hn in *. cbn [oascii enc_o] in Han |- *.
-      rewrite (lower_enc n Han).
-      rewrite py_bindS_good by reflexivity. rewrite py_iter2_list.
-      match goal with |- context [pyfor2 (map enc_conv cs) _ ?b] => set (ib := b) end.
+      pose proof (truthy_nonempty n En) as Hne.
+      rewrite (branch_and_name n _ Hne), (lower_enc n Han).
+      unfold outcome, ra_resolve. rewrite Hn, Ef. cbn [struthy] in En |- *. rewrite En. cbn [negb andb option_map map].
+      unfold enc_item, name_of, friendly_of, format_of, ra_step3, ra_step2, ra_step1.
+      cbn [ra_name ra_format ra_friendly ra_to_hit ra_fro_hit ra_required fst snd struthy]. rewrite En, Ef. cbn [fst snd]. rewrite Hne.
+      destruct (struthy (rq_format r)) eqn:Efm.
+      + change (PStr n) with (enc_o (Some n)). finish.
+      + loop3 n cs Hcs. destruct (first_hit cv_fro (lower n) cs) as [[fr3 cf3]|].
+        * change (PStr cf3) with (enc_o (Some cf3)). change (PStr n) with (enc_o (Some n)). finish.
+        * change (PStr n) with (enc_o (Some n)). finish.
+    - (* name given, friendly name missing: the second loop, then the third step *)
+      destruct (struthy_some _ En) as [n Hn]. rewrite Hn in *. cbn [oascii enc_o] in Han |- *.
+      pose proof (truthy_nonempty n En) as Hne. rewrite (lower_enc n Han).
+      repeat (rewrite (py_bindS_good _ (PList (map enc_conv cs))) by reflexivity). rewrite ?py_iter2_list.
+      match goal with |- context [pyfor2 (map enc_conv cs) [?vc; ?v; ?vf] ?b] => set (ib := b) end.
       destruct (inner_loop cv_fro "_fro" (fun c => eq_refl) (lower n) (rq_format r) ib (fun c vc vval => eq_refl) cs
                            (convs_ok_fro cs Hcs) e (enc_o (rq_friendly r))) as [vc' Hl].
-      rewrite Hl. clear Hl.
-      unfold outcome, ra_resolve. rewrite Hn, Ef. cbn [struthy] in En. cbn [struthy]. rewrite En. cbn [negb andb option_map map].
-      unfold enc_item, name_of, friendly_of, format_of, ra_step2, ra_step1.
-      cbn [ra_name ra_format ra_friendly ra_to_hit ra_fro_hit ra_required fst snd struthy]. rewrite En, Ef. cbn [fst snd negb].
-      destruct (first_hit cv_fro (lower n) cs) as [[fr cf]|].
-      + change (PStr fr) with (enc_o (Some fr)). change (PStr n) with (enc_o (Some n)).
-        rewrite append_item. rewrite py_bindS_good by reflexivity. do 5 eexists. cbn [fst snd]. reflexivity.
-      + change (PStr n) with (enc_o (Some n)).
-        rewrite append_item. rewrite py_bindS_good by reflexivity. do 5 eexists. cbn [fst snd]. reflexivity.
-    - (* name missing, friendly name given: the first loop *)
+      rewrite Hl. clear Hl ib.
+      unfold outcome, ra_resolve. rewrite Hn, Ef. cbn [struthy] in En |- *. rewrite En. cbn [negb andb option_map map].
+      unfold enc_item, name_of, friendly_of, format_of, ra_step3, ra_step2, ra_step1.
+      cbn [ra_name ra_format ra_friendly ra_to_hit ra_fro_hit ra_required fst snd struthy]. rewrite En, Ef. cbn [fst snd]. rewrite Hne.
+      destruct (first_hit cv_fro (lower n) cs) as [[fr cf]|] eqn:Eh; cbn [fst snd];
+        rewrite (branch_and_name n _ Hne); destruct (struthy (rq_format r)) eqn:Efm; rewrite ?Efm.
+      + change (PStr n) with (enc_o (Some n)). change (PStr fr) with (enc_o (Some fr)). finish.
+      + destruct (struthy (Some cf)) eqn:Ecf.
+        * change (PStr n) with (enc_o (Some n)). change (PStr fr) with (enc_o (Some fr)). finish.
+        * loop3 n cs Hcs. rewrite Eh. change (PStr cf) with (enc_o (Some cf)).
+          change (PStr n) with (enc_o (Some n)). change (PStr fr) with (enc_o (Some fr)). finish.
+      + change (PStr n) with (enc_o (Some n)). finish.
+      + loop3 n cs Hcs. rewrite Eh. change (PStr n) with (enc_o (Some n)). finish.
+    - (* name missing, friendly name given: the first loop, then the third step *)
       destruct (struthy_some _ Ef) as [f0 Hf0]. rewrite Hf0 in *. cbn [oascii enc_o] in Haf |- *.
       rewrite (lower_enc f0 Haf).
-      match goal with |- context [pyfor2 (map enc_conv cs) _ ?b] => set (ib := b) end.
+      repeat (rewrite (py_bindS_good _ (PList (map enc_conv cs))) by reflexivity). rewrite ?py_iter2_list.
+      match goal with |- context [pyfor2 (map enc_conv cs) [?vc; ?v; ?vf] ?b] => set (ib := b) end.
       destruct (inner_loop cv_to "_to" (fun c => eq_refl) (lower f0) (rq_format r) ib (fun c vc vval => eq_refl) cs
                            (convs_ok_to cs Hcs) e (enc_o (rq_name r))) as [vc' Hl].
-      rewrite Hl. clear Hl.
-      unfold outcome, ra_resolve. rewrite Hf0, En. cbn [struthy] in Ef. cbn [struthy]. rewrite Ef. cbn [negb andb option_map map].
-      unfold enc_item, name_of, friendly_of, format_of, ra_step2, ra_step1.
+      rewrite Hl. clear Hl ib.
+      unfold outcome, ra_resolve. rewrite Hf0, En. cbn [struthy] in Ef |- *. rewrite Ef. cbn [negb andb option_map map].
+      unfold enc_item, name_of, friendly_of, format_of, ra_step3, ra_step2, ra_step1.
       cbn [ra_name ra_format ra_friendly ra_to_hit ra_fro_hit ra_required fst snd struthy]. rewrite En, Ef. cbn [fst snd negb].
-      destruct (first_hit cv_to (lower f0) cs) as [[nm cf]|]; cbn [p2_branch py_truthy].
-      + change (PStr nm) with (enc_o (Some nm)). change (PStr f0) with (enc_o (Some f0)).
-        rewrite append_item. rewrite py_bindS_good by reflexivity. do 5 eexists. cbn [fst snd]. reflexivity.
-      + change (PStr f0) with (enc_o (Some f0)).
-        rewrite append_item. rewrite py_bindS_good by reflexivity. do 5 eexists. cbn [fst snd]. reflexivity.
+      destruct (first_hit cv_to (lower f0) cs) as [[nm cf]|] eqn:Eh; cbn [fst snd].
+      + pose proof (to_hit_ascii cs _ _ _ Hcs Eh) as Hnm.
+        destruct (is_empty nm) eqn:Enm.
+        * change (PStr nm) with (enc_o (Some nm)). rewrite branch_and_noname by (cbn [struthy]; rewrite Enm; reflexivity).
+          destruct (struthy (if struthy (rq_format r) then rq_format r else Some cf)); finish.
+        * rewrite (branch_and_name nm _ Enm). destruct (struthy (rq_format r)) eqn:Efm; rewrite ?Efm; [finish|].
+          destruct (struthy (Some cf)) eqn:Ecf; [finish|].
+          rewrite (lower_enc nm Hnm). loop3 nm cs Hcs. destruct (first_hit cv_fro (lower nm) cs) as [[fr3 cf3]|]; finish.
+      + rewrite (branch_and_noname (rq_name r) _ En).
+        destruct (rq_name r) as [x|]; [|destruct (struthy (rq_format r)); finish].
+        cbn [struthy] in En. destruct (is_empty x); [|discriminate]. destruct (struthy (rq_format r)); finish.
     - (* neither *)
       unfold outcome, ra_resolve. rewrite En, Ef. cbn [negb andb option_map]. do 6 eexists. reflexivity. }
   assert (Hloop : forall ps0 l0, Forall2 rep_attr ps0 l0 -> forallb rattr_ascii l0 = true ->
@@ -269,4 +374,14 @@ Proof. vm_compute. reflexivity. Qed.
 Example src2_crn_sample_raises :
   src2_create_requested_attribute_node (PList [PObj [("friendly_name", PStr "mail")]; PObj [("required", PBool true)]])
                                        (PList (map enc_conv ex_convs)) = PExc "ValueError".
+Proof. vm_compute. reflexivity. Qed.
+
+(* the third step (711f9f2e): name and friendly name given, no name_format - the format of the first map that knows the name *)
+Example src2_crn_sample_third_step :
+  src2_create_requested_attribute_node
+    (PList [PObj [("name", PStr "urn:two:mail"); ("friendly_name", PStr "eMail")]]) (PList (map enc_conv ex_convs))
+  = PObj [("__class__", PStr "RequestedAttributes");
+          ("extension_elements",
+           PList [PObj [("__class__", PStr "RequestedAttribute"); ("name", PStr "urn:two:mail"); ("name_format", PStr "urn:format:two");
+                        ("friendly_name", PStr "eMail"); ("is_required", PStr "false")]])].
 Proof. vm_compute. reflexivity. Qed.
